@@ -830,7 +830,7 @@ func findSegmentData(segs []*MediaSegment, refTrak *TrakBox, trex *TrexBox) ([]s
 	segDatas := make([]segData, 0, len(segs))
 	for _, seg := range segs {
 		var firstCompositionTimeOffest int64
-		dur := uint32(0)
+		dur := uint64(0)
 		var baseTime uint64
 		for fIdx, frag := range seg.Fragments {
 			if frag.Moof == nil { // fragment opened by an emsg box that no moof followed
@@ -849,18 +849,25 @@ func findSegmentData(segs []*MediaSegment, refTrak *TrakBox, trex *TrexBox) ([]s
 							if fIdx == 0 && i == 0 && j == 0 {
 								firstCompositionTimeOffest = int64(sample.CompositionTimeOffset)
 							}
-							dur += sample.Dur
+							dur += uint64(sample.Dur)
 						}
 					}
 				}
 			}
 		}
+		segSize := seg.Size()
+		if segSize > 0x7fffffff { // referenced_size has 31 bits, the top bit of the word is reference_type
+			return nil, fmt.Errorf("segment size %d does not fit the 31-bit referenced_size of sidx", segSize)
+		}
+		if dur > 0xffffffff {
+			return nil, fmt.Errorf("segment duration %d does not fit the 32-bit subsegment_duration of sidx", dur)
+		}
 		sd := segData{
 			startPos:         seg.StartPos,
 			presentationTime: uint64(int64(baseTime) + firstCompositionTimeOffest),
 			baseDecodeTime:   baseTime,
-			dur:              dur,
-			size:             uint32(seg.Size()),
+			dur:              uint32(dur),
+			size:             uint32(segSize),
 		}
 		segDatas = append(segDatas, sd)
 	}
